@@ -31,6 +31,26 @@ CHECKS = {
         text="Every strict prefix (all byte cuts up to 48 bytes, sampled beyond) and every length prefix corrupted to count+1/+1000/2^31/2^32-1 of generated valid encodings; serde.decode must raise whenever the reference decoder runs out of bits, within a deterministic step budget proportional to the input length.",
         note="Trusted: reference decoder; work is counted by wrapping _Buffer.get_bit/_decode and fcp.serde's range from outside, never by wall-clock.",
         ref="4/C16"),
+    "C07": dict(
+        technique="grammar-directed property-based testing: print(description) -> parse == description, plus metamorphic formatting variants",
+        text="Generated descriptions over every production (incl. identifiers that begin like builtin types) are printed, parsed by the real front end and compared, type-strictly and order-sensitively, with a tree built from the description alone; two further renderings with random whitespace, comments and optional separators must give the identical tree.",
+        note="Trusted: vlib/printer.py and vlib/expected_tree.py. Strings exclude quote/backslash/newline; keywords are not identifiers; ranges are float literals.",
+        ref="4/C07"),
+    "C08": dict(
+        technique="property-based testing with injected negative cases over generated module trees",
+        text="Generated module trees with one reference optionally replaced by a self/forward/undeclared/out-of-scope reference at any container depth; accepted trees are walked leaf by leaf (get_type resolution, kind tag, declared-before), rejected ones must be Err with a diagnostic naming the type and the struct.",
+        note="Trusted: vlib/modules.py generator. Type names unique per tree.",
+        ref="4/C08"),
+    "C11": dict(
+        technique="fuzzing: generated prefixes, token mutations, grammar-aware out-of-domain literals, random text, and (thorough) an atheris/libFuzzer coverage-guided campaign; failures bucketed by root cause and delta-minimised",
+        text="Robustness search over ~36k inputs per quick run: every prefix of generated and repository schemas, token-level mutations, 30 kinds of out-of-domain literal, noise; each outcome must be Ok(FcpV2) or a renderable Err(FcpError) whose .fcp citations exist. Thorough adds a coverage-guided atheris campaign (lark and fcp instrumented) from empty and seeded corpora.",
+        note="Inputs <= 2 KB; termination is observed, not proved. A hung parse would stall the check (inconclusive), never be reported as a violation.",
+        ref="4/C11"),
+    "C20": dict(
+        technique="property-based differential testing of generated module trees against their single-file inlining, with fault injection",
+        text="Generated trees of real module files (depth <= 3, dotted paths, sub-directories): get_fcp(root) by absolute and relative path must equal the parse of the inlined text and the tree built from the description; one injected fault (illegal character, unterminated declaration, undeclared type, missing file) must yield an Err naming the module/file.",
+        note="Trusted: vlib/modules.py. Module path components are unique within a tree.",
+        ref="4/C20"),
 }
 
 PENDING = {}
